@@ -58,7 +58,7 @@ induction cig as [|[op len] cig IH]; intros pre vp queue flank Hw Hf Hs Hq y Hy.
   { intros Hm fl Hy'. apply (IH (pre ++ [(op, len)]) vp1 queue fl Hw' Hf1 Hs1); [|exact Hy'].
     rewrite Forall_forall in *. intros e He. eapply H_move; eauto. }
   assert (Hwork : queues op ->
-     In y (let (newq, vp') := enqueue (r_ins_left_flank R && negb flank) op nv vp1 (start + ref_units (expand pre))
+     In y (let (newq, vp') := enqueue ((match op with OpI => r_ins_flank_at_ins R | _ => r_ins_left_flank R end) && negb flank) op nv vp1 (start + ref_units (expand pre))
                                 (query_units (expand pre))
                                 (start + ref_units (expand pre) + match op with OpI => if r_ins_span R then 1 else len | _ => len end) in
            let queue1 := map (handle op query quals nv (query_units (expand pre)) len) (queue ++ newq) in
@@ -876,7 +876,11 @@ assert (Hrl : length (vref (vvar nv h)) = 0).
 { destruct He1 as [->|Het]; [rewrite (vvar_j e Hv), Hvref; reflexivity|].
   rewrite Forall_forall in Hsh. specialize (Hsh e Het). lia. }
 rewrite Hrl in Hen. cbn [Nat.ltb Nat.leb] in Hen.
-destruct (enqueue sk OpI nv t _ _ _) as [a b] eqn:Eab. injection Hen as _ <-.
+assert (Hb' : exists a b, enqueue sk OpI nv t (start + ref_units (expand pre)) (query_units (expand pre))
+                            (start + ref_units (expand pre) + 1) = (a, b) /\ vp' = b).
+{ destruct (sk && (vpos (vvar nv h) =? start + ref_units (expand pre)));
+    destruct (enqueue sk OpI nv t _ _ _) as [a b] eqn:Eab; injection Hen as _ <-; exists a, b; split; reflexivity. }
+destruct Hb' as (a & b & Eab & ->).
 assert (Hfft : Forall (fresh_entry nv) t) by (eapply Forall_impl; [|exact Hbt]; apply built_fresh).
 destruct (enqueue_spec nv _ _ _ _ _ _ _ _ Hfft Eab) as [[taken' Ht'] _].
 assert (Het : In e t) by (rewrite Ht'; apply in_or_app; now right).
@@ -918,7 +922,7 @@ induction cig as [|[op len] cig IH]; intros pre vp queue flank Hw Hb Hs HV3 Hq y
       destruct (op_over_K pre op len cig Hw HV31 H) as [-> _]. destruct Hm as [H0|[H0|[H0|H0]]]; discriminate.
     - rewrite HU'. rewrite Forall_forall in *. intros e He. eapply move_entry; eauto. }
   assert (Hwork : queues op ->
-     In y (let (newq, vp') := enqueue (r_ins_left_flank R && negb flank) op nv vp1 (start + ref_units (expand pre))
+     In y (let (newq, vp') := enqueue ((match op with OpI => r_ins_flank_at_ins R | _ => r_ins_left_flank R end) && negb flank) op nv vp1 (start + ref_units (expand pre))
                                 (query_units (expand pre))
                                 (start + ref_units (expand pre) + match op with OpI => if r_ins_span R then 1 else len | _ => len end) in
            let queue1 := map (handle op query quals nv (query_units (expand pre)) len) (queue ++ newq) in
